@@ -305,4 +305,31 @@ def pairwiseB {α : Type} (r : α → α → Bool) : List α → Bool
   | [] => true
   | x :: xs => xs.all (fun y => r x y && r y x) && pairwiseB r xs
 
+/-! ## search-tree certificates
+
+The translator also emits balanced binary search trees over the index keys / the names.  They are *oracles*: a check
+"every key computed by the model from the table is found in the tree with its owner" is linear·log for the kernel and
+implies collision-freeness whatever the tree looks like (a wrong tree can only make the check fail). -/
+
+inductive Tree (α : Type)
+  | leaf
+  | node (l : Tree α) (k : Nat) (v : α) (r : Tree α)
+
+def Tree.find {α : Type} : Tree α → Nat → Option α
+  | .leaf, _ => none
+  | .node l k v r, q => if q.beq k then some v else if Nat.blt q k then l.find q else r.find q
+
+/-- `F (l[i]) = some (p + i)` for every position `i` -/
+def idxOk (F : Nat → Option Nat) : Nat → List Nat → Bool
+  | _, [] => true
+  | p, k :: ks => (match F k with | some v => v.beq p | none => false) && idxOk F (p + 1) ks
+
+/-- `a` is a subsequence of `b` (linear two-pointer walk) -/
+def subseqB {α : Type} (eq : α → α → Bool) : List α → List α → Bool
+  | [], _ => true
+  | _ :: _, [] => false
+  | x :: xs, y :: ys => if eq x y then subseqB eq xs ys else subseqB eq (x :: xs) ys
+
+def Iso.memB (i : Iso) (l : List Iso) : Bool := l.any fun x => i.beq x
+
 end Cherab.Registry
